@@ -89,6 +89,13 @@ pub struct Chip126x {
     /// meaningful while asleep: configuration retained
     pub sleep_warm: bool,
     pub rx_continuous: bool,
+    /// SetRxDutyCycle is running: between its listening windows the chip sleeps (with retention),
+    /// and the model is adversarial about it: the rig decides when the host finds it in the sleep
+    /// phase (see `duty_asleep_next`)
+    pub rx_duty: bool,
+    /// one-shot, armed by the rig at the start of an API call that begins a new activity: the next
+    /// transaction finds a duty-cycling chip in its sleep phase (time has passed since it started)
+    pub duty_asleep_next: bool,
     pub buf: [u8; 256],
     pub tx_base: u8,
     pub rx_base: u8,
@@ -151,6 +158,8 @@ impl Chip126x {
             mode: Mode::Stdby,
             sleep_warm: false,
             rx_continuous: false,
+            rx_duty: false,
+            duty_asleep_next: false,
             buf: [0; 256],
             tx_base: 0,
             rx_base: 0,
@@ -239,6 +248,7 @@ impl Chip126x {
     fn abort_op(&mut self) {
         self.op = None;
         self.pending.clear();
+        self.rx_duty = false;
     }
 
     pub fn reg(&self, addr: u16) -> u8 {
@@ -416,6 +426,7 @@ impl Chip126x {
             SET_RX_DUTY_CYCLE => {
                 self.rx_continuous = false;
                 self.start_op(OpKind::Rx);
+                self.rx_duty = true;
                 return "RX-START(duty)";
             }
             SET_CAD => {
@@ -554,7 +565,21 @@ impl ChipModel for Chip126x {
         let before = self.mode;
         let mut miso = vec![0u8; mosi.len()];
         let note;
-        if self.mode == Mode::Sleep {
+        let duty_asleep = std::mem::replace(&mut self.duty_asleep_next, false);
+        if duty_asleep && self.rx_duty && self.op.is_some() && self.mode == Mode::Rx {
+            // sleep phase of the duty cycle: NSS wakes the chip into standby (the duty cycle ends);
+            // the bytes clocked meanwhile are not a command
+            let first = mosi.first().copied().unwrap_or(GET_STATUS);
+            if first != GET_STATUS {
+                self.alarms.push(Alarm::CommandWhileAsleep(first));
+                note = "WAKE-UP from duty-cycle sleep (command lost)";
+            } else {
+                note = "WAKE-UP from duty-cycle sleep";
+            }
+            self.abort_op();
+            self.mode = Mode::Stdby;
+            self.cmd_status = 1;
+        } else if self.mode == Mode::Sleep {
             // NSS going low wakes the chip; the bytes clocked meanwhile are not a command
             let first = mosi.first().copied().unwrap_or(GET_STATUS);
             if first != GET_STATUS {
